@@ -1,10 +1,14 @@
 (* C10 — executable model of litep2p's peer address book:
      src/transport/manager/handle.rs   supported_transport, is_local_address, add_known_address
-     src/transport/manager/address.rs  AddressRecord::new, AddressStore::{insert, addresses}
+     src/transport/manager/address.rs  AddressRecord::new, AddressStore::{insert, addresses, error_score}
+     src/error.rs                      DialError and the enums nested in it (AddressError, DnsError,
+                                       NegotiationError, ParseError, QuicError), one constructor per variant
      src/transport/manager/mod.rs      register_listen_address, dial(peer) (capacity, selection,
-                                       routing to the transports' open()), the address updates
-                                       of the DialFailure / OpenFailure / ConnectionOpened /
+                                       routing to the transports' open()), dial_address (its address
+                                       check and the record it stores), the address updates of the
+                                       DialFailure / OpenFailure / ConnectionOpened /
                                        ConnectionEstablished events
+     src/addresses.rs                  PublicAddresses::{add_address, remove_address}
      src/transport/manager/limits.rs   on_dial_address (free outbound capacity)
      src/transport/common/listener.rs  multiaddr_to_socket_address (TCP and WebSocket)
      src/transport/quic/listener.rs    get_socket_address
@@ -25,7 +29,7 @@
      the model step and is validated, never guessed;
    - scores are integers (Z) with i32 saturation written out. *)
 From Coq Require Import List NArith ZArith Bool.
-From V.gen Require Consts.
+From V.gen Require Consts DialErrors.
 Import ListNotations.
 
 (* ---------- the multiaddress grammar ---------- *)
@@ -283,22 +287,124 @@ Definition I32_MAX : Z := 2147483647.
 Definition I32_MIN : Z := -2147483648.
 Definition sat_add (a b : Z) : Z := Z.max I32_MIN (Z.min I32_MAX (a + b)).
 
+(* ---------- error.rs: DialError, one constructor per Rust variant ---------- *)
+
+Inductive address_error :=
+| AeInvalidProtocol | AeInvalidUrl | AePeerIdMissing | AeAddressNotAvailable | AeInvalidPeerId.
+Inductive dns_error := DeResolveError | DeIpVersionMismatch.
+Inductive parse_error :=
+| PeProstDecodeError | PeProstEncodeError | PeUnknownKeyType | PeInvalidPublicKey | PeInvalidData
+| PeInvalidReplyLength.
+Inductive quic_error := QeInvalidCertificate | QeConnectionError | QeConnectError.
+Inductive negotiation_error :=
+| NeMultistreamSelectError | NeSnowError | NePeerIdMissing | NeBadSignature | NeTimeout
+| NeParseError (p : parse_error) | NeIoError | NeStateMismatch | NePeerIdMismatch
+| NeQuic (q : quic_error)          (* cfg(feature = "quic") *)
+| NeWebSocket.                     (* cfg(feature = "websocket") *)
+Inductive dial_error :=
+| ETimeout
+| EAddress (e : address_error)
+| EDns (e : dns_error)
+| ENegotiation (e : negotiation_error).
+
+Definition all_address_errors : list address_error :=
+  [AeInvalidProtocol; AeInvalidUrl; AePeerIdMissing; AeAddressNotAvailable; AeInvalidPeerId].
+Definition all_dns_errors : list dns_error := [DeResolveError; DeIpVersionMismatch].
+Definition all_parse_errors : list parse_error :=
+  [PeProstDecodeError; PeProstEncodeError; PeUnknownKeyType; PeInvalidPublicKey; PeInvalidData;
+   PeInvalidReplyLength].
+Definition all_quic_errors : list quic_error := [QeInvalidCertificate; QeConnectionError; QeConnectError].
+Definition all_negotiation_errors : list negotiation_error :=
+  [NeMultistreamSelectError; NeSnowError; NePeerIdMissing; NeBadSignature; NeTimeout] ++
+  map NeParseError all_parse_errors ++ [NeIoError; NeStateMismatch; NePeerIdMismatch] ++
+  map NeQuic all_quic_errors ++ [NeWebSocket].
+Definition all_dial_errors : list dial_error :=
+  [ETimeout] ++ map EAddress all_address_errors ++ map EDns all_dns_errors ++
+  map ENegotiation all_negotiation_errors.
+
+Open Scope N_scope.
+
+(* position of a variant in its Rust enum *)
+Definition ae_index (e : address_error) : N :=
+  match e with
+  | AeInvalidProtocol => 0 | AeInvalidUrl => 1 | AePeerIdMissing => 2 | AeAddressNotAvailable => 3
+  | AeInvalidPeerId => 4
+  end.
+Definition de_index (e : dns_error) : N :=
+  match e with DeResolveError => 0 | DeIpVersionMismatch => 1 end.
+Definition pe_index (e : parse_error) : N :=
+  match e with
+  | PeProstDecodeError => 0 | PeProstEncodeError => 1 | PeUnknownKeyType => 2
+  | PeInvalidPublicKey => 3 | PeInvalidData => 4 | PeInvalidReplyLength => 5
+  end.
+Definition qe_index (e : quic_error) : N :=
+  match e with QeInvalidCertificate => 0 | QeConnectionError => 1 | QeConnectError => 2 end.
+Definition ne_path (e : negotiation_error) : list N :=
+  match e with
+  | NeMultistreamSelectError => [0] | NeSnowError => [1] | NePeerIdMissing => [2]
+  | NeBadSignature => [3] | NeTimeout => [4] | NeParseError p => [5; pe_index p]
+  | NeIoError => [6] | NeStateMismatch => [7] | NePeerIdMismatch => [8]
+  | NeQuic q => [9; qe_index q] | NeWebSocket => [10]
+  end.
+(* the path of variant indices that a Rust pattern for exactly this error spells out *)
+Definition err_path (e : dial_error) : list N :=
+  match e with
+  | ETimeout => [0]
+  | EAddress a => [1; ae_index a]
+  | EDns d => [2; de_index d]
+  | ENegotiation n => 3 :: ne_path n
+  end.
+
+(* the wire code of an error kind: outer + 4 * inner + 64 * innermost *)
+Definition err_code (e : dial_error) : N :=
+  match err_path e with
+  | [a] => a
+  | [a; b] => a + 4 * b
+  | [a; b; c] => a + 4 * b + 64 * c
+  | _ => 0
+  end.
+Fixpoint find_code (code : N) (l : list dial_error) : option dial_error :=
+  match l with
+  | [] => None
+  | e :: t => if err_code e =? code then Some e else find_code code t
+  end.
+Definition err_of_code (code : N) : option dial_error := find_code code all_dial_errors.
+
+Fixpoint is_prefix (p l : list N) : bool :=
+  match p, l with
+  | [], _ => true
+  | x :: p', y :: l' => (x =? y) && is_prefix p' l'
+  | _ :: _, [] => false
+  end.
+
+Open Scope Z_scope.
+
+(* a Rust `match` over the error: the first arm whose pattern (a path prefix; [] is `_`) covers
+   the error decides. (Rust's match is exhaustive; an error no arm of the table covers can only
+   come from an unreadable arm and scores 0 here, which the theorems reject.) *)
+Fixpoint arm_score (arms : list (list N * Z)) (path : list N) : Z :=
+  match arms with
+  | [] => 0
+  | (p, z) :: t => if is_prefix p path then z else arm_score t path
+  end.
+
 Record scorecfg := mkScores {
-  cap : nat;                (* MAX_ADDRESSES *)
-  bonus : Z;                (* PUBLIC_ADDRESS_BONUS *)
-  sc_established : Z;       (* CONNECTION_ESTABLISHED *)
-  sc_failure : Z;           (* CONNECTION_FAILURE *)
-  sc_addr_failure : Z       (* ADDRESS_FAILURE *)
+  cap : nat;                          (* MAX_ADDRESSES *)
+  bonus : Z;                          (* PUBLIC_ADDRESS_BONUS *)
+  sc_established : Z;                 (* CONNECTION_ESTABLISHED *)
+  err_arms : list (list N * Z)        (* the arms of AddressStore::error_score *)
 }.
 
-(* the constants of address.rs (gen/Consts.v is regenerated from the source on every check;
-   the two negative scores are read as magnitudes) *)
+(* AddressStore::error_score *)
+Definition error_score (k : scorecfg) (e : dial_error) : Z := arm_score (err_arms k) (err_path e).
+
+(* the constants of address.rs and the arms of error_score (gen/Consts.v and gen/DialErrors.v are
+   regenerated from the source on every check) *)
 Definition default_scores : scorecfg :=
   mkScores (N.to_nat Consts.MAX_ADDRESSES)
            (Z.of_N Consts.SCORE_PUBLIC_ADDRESS_BONUS)
            (Z.of_N Consts.SCORE_CONNECTION_ESTABLISHED)
-           (- Z.of_N Consts.SCORE_CONNECTION_FAILURE_NEG)
-           (- Z.of_N Consts.SCORE_ADDRESS_FAILURE_NEG).
+           DialErrors.error_score_arms.
 
 Definition store := list (maddr * Z).
 
@@ -434,37 +540,46 @@ Fixpoint put (p : N) (s : store) (b : book) : book :=
 Definition get_or_empty (p : N) (b : book) : store :=
   match get p b with Some s => s | None => [] end.
 
-(* ---------- the state: books, listen addresses, outbound connections held ---------- *)
+(* ---------- the state: books, listen addresses, outbound connections held, public addresses ---------- *)
 
 Record state := mkState {
   bk : book;
   lst : list maddr;      (* register_listen_address calls so far *)
-  held : nat             (* established outbound connections counted by ConnectionLimits *)
+  held : nat;            (* established outbound connections counted by ConnectionLimits *)
+  pubs : list maddr      (* PublicAddresses (a set; kept in insertion order) *)
 }.
 
-Definition init : state := mkState [] [] 0.
-Definition set_bk (st : state) (b : book) : state := mkState b (lst st) (held st).
+Definition init : state := mkState [] [] 0 [].
+Definition set_bk (st : state) (b : book) : state := mkState b (lst st) (held st) (pubs st).
 
 (* ---------- operations ---------- *)
-
-Inductive failure := ConnFailure | AddrFailure.
 
 Inductive op :=
 | OAdd (peer : N) (addrs : list maddr) (order : list maddr) (victims : list maddr)
       (* add_known_address; order = the order in which the implementation's HashSet yielded the
          accepted addresses, victims = the records it evicted, in order *)
-| ODialFailure (a : maddr) (f : failure) (victim : option maddr) (* update_address_on_dial_failure *)
+| ODialFailure (a : maddr) (e : dial_error) (victim : option maddr)
+                                                   (* update_address_on_dial_failure *)
 | OEstablished (peer : N) (a : maddr) (listener : bool) (victim : option maddr)
                                                    (* update_address_on_connection_established *)
 | ODialAddrs (peer : N) (limit : nat) (obs : list maddr)         (* AddressStore::addresses(limit) *)
 | OProbe (a : maddr)                                             (* stateless: filters and parsers *)
 | OListen (a : maddr)                                            (* register_listen_address *)
 | OHold (n : nat)         (* bring the number of established outbound connections (to other peers) to n *)
-| ODial (peer : N) (outcome : nat) (tcp ws : list maddr).
+| ODial (peer : N) (outcome : nat) (errs : list dial_error) (tcp ws : list maddr)
       (* dial(peer) end to end; tcp / ws = the address lists the implementation handed to the
-         open() of the TCP / WebSocket transport; outcome 0: every attempt times out, j+1: the
-         attempt on address j of tcp ++ ws succeeds after the ones before it on the same transport
-         timed out, the connection is established and closed again *)
+         open() of the TCP / WebSocket transport; outcome 0: every attempt fails, j+1: the attempt
+         on address j of tcp ++ ws succeeds after the ones before it on the same transport failed,
+         the connection is established and closed again. Attempt i of tcp ++ ws, when it fails,
+         fails with error kind errs[i mod |errs|] (Timeout when errs is empty) *)
+| OInsert (peer : N) (a : maddr) (sc : Z) (victim : option maddr)
+      (* AddressStore::insert(AddressRecord::new(peer, a, sc)) with an arbitrary i32 score *)
+| ODialAddr (a : maddr) (res : option dial_error) (victims : list maddr)
+      (* dial_address(a) end to end: the address check, the record stored for later dials, then
+         the DialFailure event with the given error kind, or (None) ConnectionEstablished, accept
+         and close *)
+| OPublicAdd (a : maddr)                                         (* PublicAddresses::add_address *)
+| OPublicRemove (a : maddr).                                     (* PublicAddresses::remove_address *)
 
 Inductive dial_result :=
 | DLimit                 (* no free outbound capacity *)
@@ -476,6 +591,16 @@ Inductive dial_result :=
 | DBadChoice             (* the supplied open() lists are not a valid selection *)
 | DTried (tcp ws : store).
 
+(* what dial_address makes of an address *)
+Inductive dial_addr_verdict :=
+| DALimit                (* ConnectionLimit: no free outbound capacity *)
+| DAPeerIdMissing        (* the address does not end in /p2p *)
+| DASelf                 (* TriedToDialSelf: exactly one of the registered listen addresses *)
+| DAUnsupported          (* TransportNotSupported: shape, trailing components, transport not installed *)
+| DAOk (t : transport) (q : N).
+
+Inductive pub_result := PubEmpty | PubDifferent | PubAdded (new : bool).
+
 Inductive out :=
 | RAdd (n : N) (bad : bool)
 | RIns (r : option ins)
@@ -483,7 +608,12 @@ Inductive out :=
 | RProbe (sup : bool) (rt : transport) (ptcp pws pquic : option parsed) (loc : bool)
 | RListen
 | RHold (n : nat)
-| RDial (r : dial_result).
+| RDial (r : dial_result)
+| RDialAddr (v : dial_addr_verdict) (bad : bool)
+| RPub (r : pub_result)
+| RPubRemoved (b : bool).
+
+Definition is_bad (r : ins) : bool := match r with BadChoice => true | _ => false end.
 
 (* inserting a list of fresh records with score 0, consuming one victim per eviction *)
 Fixpoint insert_all (k : scorecfg) (s : store) (l : list maddr) (victims : list maddr)
@@ -497,9 +627,6 @@ Fixpoint insert_all (k : scorecfg) (s : store) (l : list maddr) (victims : list 
       let '(s2, bad) := insert_all k s1 t victims' in
       (s2, match r with BadChoice => true | _ => bad end)
   end.
-
-Definition failure_score (k : scorecfg) (f : failure) : Z :=
-  match f with ConnFailure => sc_failure k | AddrFailure => sc_addr_failure k end.
 
 (* `order` enumerates exactly the set `acc` *)
 Definition same_set (order acc : list maddr) : bool :=
@@ -532,33 +659,101 @@ Definition free_capacity (c : cfg) (st : state) (n : nat) : option nat :=
   | None => Some n
   end.
 
-(* every attempt in l timed out *)
-Fixpoint fail_all (k : scorecfg) (s : store) (l : list maddr) : store :=
+(* the error kind of attempt i *)
+Definition err_at (errs : list dial_error) (i : nat) : dial_error :=
+  match errs with
+  | [] => ETimeout
+  | _ => nth (i mod length errs) errs ETimeout
+  end.
+(* the attempts of one transport's list, numbered from `off` *)
+Definition tag_errs (errs : list dial_error) (off : nat) (l : list maddr) : list (maddr * dial_error) :=
+  combine l (map (err_at errs) (seq off (length l))).
+
+(* every attempt in l failed with its error kind: update_address_on_dial_failure for each *)
+Fixpoint fail_each (k : scorecfg) (s : store) (l : list (maddr * dial_error)) : store :=
   match l with
   | [] => s
-  | a :: t => fail_all k (fst (insert k s a (sc_failure k) None)) t
+  | (a, e) :: t => fail_each k (fst (insert k s a (error_score k e) None)) t
   end.
 
-(* the attempt on element j of l succeeds after the earlier ones timed out: the errors of the
+(* the attempt on element j of l succeeds after the earlier ones failed: the errors of the
    ConnectionOpened event, then on_connection_opened and on_connection_established *)
-Definition succeed_at (k : scorecfg) (s : store) (peer : N) (l : list maddr) (j : nat) : store :=
-  let s1 := fail_all k s (firstn j l) in
+Definition succeed_at (k : scorecfg) (s : store) (peer : N) (l : list (maddr * dial_error)) (j : nat)
+  : store :=
+  let s1 := fail_each k s (firstn j l) in
   match nth_error l j with
-  | Some a =>
+  | Some (a, _) =>
       let s2 := fst (insert k s1 (with_peer peer a) (sc_established k) None) in
       fst (insert k s2 (with_peer peer a) (sc_established k) None)
   | None => s1
   end.
 
-Definition dial_outcome (k : scorecfg) (s : store) (peer : N) (outcome : nat) (tcp ws : list maddr)
-  : store :=
+Definition dial_outcome (k : scorecfg) (s : store) (peer : N) (outcome : nat) (errs : list dial_error)
+           (tcp ws : list maddr) : store :=
+  let t := tag_errs errs 0 tcp in
+  let w := tag_errs errs (length tcp) ws in
   match outcome with
-  | O => fail_all k (fail_all k s tcp) ws
+  | O => fail_each k (fail_each k s t) w
   | S j0 =>
       let n := (length tcp + length ws)%nat in
       let j := (j0 mod n)%nat in
-      if (j <? length tcp)%nat then succeed_at k s peer tcp j
-      else succeed_at k s peer ws (j - length tcp)
+      if (j <? length tcp)%nat then succeed_at k s peer t j
+      else succeed_at k s peer w (j - length tcp)
+  end.
+
+(* ---- dial_address ---- *)
+
+Definition is_host (h : comp) : bool :=
+  match h with Ip4 _ _ | Ip6 _ _ | Dns _ | Dns4 _ | Dns6 _ => true | _ => false end.
+
+(* the checks of TransportManager::dial_address, in the order of the code *)
+Definition dial_addr_check (c : cfg) (st : state) (a : maddr) : dial_addr_verdict :=
+  match free_capacity c st 0 with
+  | None => DALimit
+  | Some _ =>
+      match last a (Other 0) with
+      | P2p q =>
+          if existsb (maddr_eqb a) (listen_set c (lst st)) then DASelf
+          else
+            match a with
+            | h :: rest =>
+                if is_host h then
+                  match rest with
+                  | [Tcp _; P2p _] => if enabled c TTcp then DAOk TTcp q else DAUnsupported
+                  | [Tcp _; Ws; P2p _] | [Tcp _; Wss; P2p _] =>
+                      if enabled c TWs then DAOk TWs q else DAUnsupported
+                  | [Udp _; QuicV1; P2p _] => if enabled c TQuic then DAOk TQuic q else DAUnsupported
+                  | _ => DAUnsupported
+                  end
+                else DAUnsupported
+            | [] => DAUnsupported
+            end
+      | _ => DAPeerIdMissing
+      end
+  end.
+
+(* ---- addresses.rs: PublicAddresses ---- *)
+
+Fixpoint remove_addr (a : maddr) (l : list maddr) : list maddr :=
+  match l with
+  | [] => []
+  | b :: t => if maddr_eqb b a then t else b :: remove_addr a t
+  end.
+
+(* ensure_local_peer + HashSet::insert *)
+Definition public_add (c : cfg) (ps : list maddr) (a : maddr) : list maddr * pub_result :=
+  match a with
+  | [] => (ps, PubEmpty)
+  | _ =>
+      match last a (Other 0) with
+      | P2p q =>
+          if N.eqb q (local_peer c) then
+            if existsb (maddr_eqb a) ps then (ps, PubAdded false) else (ps ++ [a], PubAdded true)
+          else (ps, PubDifferent)
+      | _ =>
+          let a' := a ++ [P2p (local_peer c)] in
+          if existsb (maddr_eqb a') ps then (ps, PubAdded false) else (ps ++ [a'], PubAdded true)
+      end
   end.
 
 Definition step (c : cfg) (k : scorecfg) (st : state) (o : op) : state * out :=
@@ -571,10 +766,10 @@ Definition step (c : cfg) (k : scorecfg) (st : state) (o : op) : state * out :=
         let '(s', bad) := insert_all k s order victims in
         (set_bk st (put peer s' b), RAdd (N.of_nat (length acc)) bad)
       else (st, RAdd (N.of_nat (length acc)) true)
-  | ODialFailure a f victim =>
+  | ODialFailure a e victim =>
       match last a (Other 0) with
       | P2p p =>
-          let '(s', r) := insert k (get_or_empty p b) (with_peer p a) (failure_score k f) victim in
+          let '(s', r) := insert k (get_or_empty p b) (with_peer p a) (error_score k e) victim in
           (set_bk st (put p s' b), RIns (Some r))
       | _ => (st, RIns None)
       end
@@ -583,6 +778,9 @@ Definition step (c : cfg) (k : scorecfg) (st : state) (o : op) : state * out :=
       else
         let '(s', r) := insert k (get_or_empty peer b) (with_peer peer a) (sc_established k) victim in
         (set_bk st (put peer s' b), RIns (Some r))
+  | OInsert peer a sc victim =>
+      let '(s', r) := insert k (get_or_empty peer b) (with_peer peer a) sc victim in
+      (set_bk st (put peer s' b), RIns (Some r))
   | ODialAddrs peer limit obs =>
       let s := get_or_empty peer b in
       let obs' := with_scores s obs in
@@ -590,15 +788,15 @@ Definition step (c : cfg) (k : scorecfg) (st : state) (o : op) : state * out :=
   | OProbe a =>
       (st, RProbe (supported c a) (route c a) (parse TTcp a) (parse TWs a) (parse TQuic a)
                   (is_local c (lst st) a))
-  | OListen a => (mkState b (lst st ++ [a]) (held st), RListen)
+  | OListen a => (mkState b (lst st ++ [a]) (held st) (pubs st), RListen)
   | OHold n =>
       (* connections are established through an installed transport and accepted only while
          below the outbound limit *)
       if en_tcp c || (feat_ws c && en_ws c) then
         let n' := match max_out c with Some m => Nat.min n m | None => n end in
-        (mkState b (lst st) n', RHold n')
+        (mkState b (lst st) n' (pubs st), RHold n')
       else (st, RHold (held st))
-  | ODial peer outcome tcp ws =>
+  | ODial peer outcome errs tcp ws =>
       let s := get_or_empty peer b in
       (* the harness does not call dial(peer) for a store it could wedge on *)
       if existsb (fun x => negb (enabled c (route c (fst x)) && names peer (fst x))) s
@@ -616,11 +814,29 @@ Definition step (c : cfg) (k : scorecfg) (st : state) (o : op) : state * out :=
                       forallb (fun a => match route c a with TTcp => true | _ => false end) tcp &&
                       forallb (fun a => match route c a with TWs => true | _ => false end) ws &&
                       addresses_ok limit s (merge_desc t w)
-                   then (set_bk st (put peer (dial_outcome k s peer outcome tcp ws) b),
+                   then (set_bk st (put peer (dial_outcome k s peer outcome errs tcp ws) b),
                          RDial (DTried t w))
                    else (st, RDial DBadChoice)
                end
       end
+  | ODialAddr a res victims =>
+      match dial_addr_check c st a with
+      | DAOk t q =>
+          (* "keep the provided record around for possible future dials" (score 0), then the
+             result of the dial re-scores it *)
+          let '(s1, r1) := insert k (get_or_empty q b) a 0 (hd_error victims) in
+          let victims1 := match r1 with Evicted _ => tl victims | _ => victims end in
+          let sc := match res with Some e => error_score k e | None => sc_established k end in
+          let '(s2, r2) := insert k s1 a sc (hd_error victims1) in
+          (set_bk st (put q s2 b), RDialAddr (DAOk t q) (is_bad r1 || is_bad r2))
+      | v => (st, RDialAddr v false)
+      end
+  | OPublicAdd a =>
+      let '(ps, r) := public_add c (pubs st) a in
+      (mkState b (lst st) (held st) ps, RPub r)
+  | OPublicRemove a =>
+      (mkState b (lst st) (held st) (remove_addr a (pubs st)),
+       RPubRemoved (existsb (maddr_eqb a) (pubs st)))
   end.
 
 Fixpoint run (c : cfg) (k : scorecfg) (st : state) (h : list op) : state * list out :=
